@@ -10,8 +10,8 @@
 EXTENDS Integers, Sequences, FiniteSets, TLC
 
 FileShapes == {"missing", "empty", "nulldoc", "emptylist", "valid", "validextra", "scalar", "map", "listofscalars", "wrongtypes", "deepnest",
-               "aliases", "damaged", "binary", "hugelist", "directory"}
-TextClasses == {"plain", "nul", "longfields", "punct", "emptyfields", "unicode", "badutf8"}
+               "aliases", "damaged", "binary", "hugelist", "directory", "utf16le", "utf16be"}
+TextClasses == {"plain", "nul", "longfields", "punct", "emptyfields", "blankfields", "unicode", "badutf8"}
 QueryClasses == {"plain", "short", "nul", "badutf8", "long1000", "punct", "empty", "blank", "repeat300", "unicode", "regexchars"}
 OptionClasses == {"default", "limits", "thresholds", "caps", "boostsNaN", "pipelineNaN", "platformsOdd"}
 Entries == {"universal", "search", "pipeline", "legacyoptions", "legacyfuzzy", "legacynlp", "cached", "monitored", "suggestions", "recovery"}
@@ -19,7 +19,7 @@ Entries == {"universal", "search", "pipeline", "legacyoptions", "legacyfuzzy", "
 \* what loading may answer for a file shape: "loads" | "notfound" | "parse" | "othererror"
 LoadAllowed(shape) ==
     CASE shape = "missing" -> {"notfound"}
-      [] shape \in {"empty", "nulldoc", "emptylist", "valid", "validextra", "hugelist"} -> {"loads"}      \* every well-formed list of entries loads
+      [] shape \in {"empty", "nulldoc", "emptylist", "valid", "validextra", "hugelist", "utf16le", "utf16be"} -> {"loads"}      \* every well-formed list of entries loads
       [] shape \in {"scalar", "map", "listofscalars", "damaged", "binary"} -> {"parse"}                    \* cannot be decoded as a list of entries
       [] shape \in {"wrongtypes", "deepnest", "aliases"} -> {"loads", "parse"}                             \* decoder's choice
       [] shape = "directory" -> {"othererror", "parse", "notfound"}
